@@ -7,7 +7,6 @@ psutil from PYTHONPATH and serves JSON requests on stdin/stdout.  Imported, it
 is the client side used by harness/props/c18.py.
 """
 import ctypes
-import errno
 import json
 import os
 import platform
@@ -46,7 +45,8 @@ def _worker():
             elif op == "ionice":
                 a = list(c["a"])
                 if c.get("enum") and a and a[0] is not None:
-                    a[0] = psutil.IOPriority(a[0])
+                    a[0] = getattr(psutil, ["IOPRIO_CLASS_NONE", "IOPRIO_CLASS_RT", "IOPRIO_CLASS_BE",
+                                            "IOPRIO_CLASS_IDLE"][a[0]])
                 v = p.ionice(*a)
                 if v is not None:
                     v = [int(v.ioclass), v.value]
@@ -80,7 +80,7 @@ def _worker():
             rep = {"file": psutil.__file__, "version": psutil.__version__,
                    "ncpu": len(psutil.cpu_times(percpu=True)),
                    "rlimits": sorted((k, getattr(psutil, k)) for k in dir(psutil) if k.startswith("RLIMIT_")),
-                   "ioclasses": [int(x) for x in psutil.IOPriority]}
+                   "ioclasses": [int(getattr(psutil, k)) for k in dir(psutil) if k.startswith("IOPRIO_CLASS_")]}
         elif c == "new":
             try:
                 procs[req["k"]] = psutil.Process(req["pid"])
@@ -296,6 +296,14 @@ class Child:
                 os._exit(0)
         os.close(r)
         self.pid, self._w = pid, w
+
+    def alive(self):
+        if self.pid is None:
+            return False
+        try:
+            return os.waitid(os.P_PID, self.pid, os.WEXITED | os.WNOHANG | os.WNOWAIT) is None
+        except OSError:
+            return False
 
     def kill(self):
         if self.pid is None:
